@@ -117,7 +117,16 @@ func (m *c15mon) call(idx int, in []byte, entry string, class string, f func() e
 		c.Viol("C15", idx, "panic/"+entry+"/"+st+"/"+panicClass(pm), fmt.Sprintf("%s on %d bytes (%s): %s", entry, len(in), class, wk.Short(pm, 300)), fmt.Sprintf("%x", clipIn(in)))
 		return
 	}
-	cpuBound := int64(c15CPULimitNs) + int64(c15CPUPerInNs)*int64(len(in))
+	// 5 s flat; the per-byte allowance is granted only to inputs that carry gzip_packed, whose (exempt) expansion is
+	// repeated by every nesting layer up to the decoder's limit: without it the work must not grow with anything but
+	// the input walked once (a quadratic re-reading of the rest of the message per object showed only here)
+	cpuBound := int64(c15CPULimitNs)
+	if containsWord(in, 0x3072cfa1) {
+		cpuBound += int64(c15CPUPerInNs) * int64(len(in))
+		c.Max("max.cpu_ms_with_gzip", (t1-t0)/1e6)
+	} else {
+		c.Max("max.cpu_ms_without_gzip", (t1-t0)/1e6)
+	}
 	c.Max("max.cpu_permille_of_bound", (t1-t0)*1000/cpuBound)
 	if t1-t0 > cpuBound {
 		c.Viol("C15", idx, "cpu/"+entry, fmt.Sprintf("%s on %d bytes (%s) used %.1f s of CPU", entry, len(in), class, float64(t1-t0)/1e9), fmt.Sprintf("%x", clipIn(in)))
